@@ -227,6 +227,34 @@ class Rejected(Exception):
 
 
 def apply(p, att, env, st):
+    """apply an attempt through the real API (watched: see `_watchdog`)"""
+    import time as _t
+    st["running"] = (_t.time(), att)
+    try:
+        return _apply(p, att, env, st)
+    finally:
+        st["running"] = None
+
+
+def _watchdog(st, rec, out_path, limit):
+    """A mutated (or the real) tree may never return from one call (an SMT query that does not
+    terminate cannot be interrupted from Python).  If one attempt runs longer than `limit` seconds
+    the record collected so far is written out with the attempt named, and the process exits."""
+    import time as _t
+    while True:
+        _t.sleep(2.0)
+        r = st.get("running")
+        if r is not None and _t.time() - r[0] > limit:
+            rec.setdefault("timeouts", []).append({"att": r[1], "limit_s": limit})
+            rec["counts"]["attempt-timeout"] = rec["counts"].get("attempt-timeout", 0) + 1
+            try:
+                with open(out_path, "w") as f:
+                    json.dump(rec, f, default=str)
+            finally:
+                os._exit(0)
+
+
+def _apply(p, att, env, st):
     """apply an attempt through the real API.  st: worker state (module source for `unrelated`)."""
     import stream
     exo, C, S = stream._api()
@@ -324,7 +352,7 @@ def _model_case(rec, opts, p, att, p2, env, new_callee):
                       "before": str(p), "after": str(p2)})
 
 
-def worker(job):
+def worker(job, out_path=None):
     (name, src, seed, opts) = job
     sys.path.insert(0, os.path.dirname(os.path.dirname(os.path.abspath(__file__))))
     import common
@@ -350,7 +378,11 @@ def worker(job):
         p0 = procs[names[-1]]
         env = {"callees": {k: procs[k] for k in names[:-1]},
                "configs": {k: v for k, v in vars(mod).items() if isinstance(v, Config)}}
-        st = {"src": src, "callee_pairs": [], "last_callee": None}
+        st = {"src": src, "callee_pairs": [], "last_callee": None, "running": None}
+        if out_path is not None:
+            import threading
+            threading.Thread(target=_watchdog, args=(st, rec, out_path, opts.get("attempt_limit_s", 180)),
+                             daemon=True).start()
         obs = obs_cfg.Observer(rec, rng, opts)
         obs.start(p0, env, src)
         try:
@@ -508,3 +540,17 @@ def _replay(rp, p0, env, st, obs, rec):
     if bad:
         rec["records"].append(dict(rp, kind="mismatch", orig_result=ra, derived_result=rb,
                                    reported_modulo=sorted(map(list, K))))
+
+
+def main(argv):
+    """python c10_worker.py job.json out.json  — one program per OS process"""
+    job = json.load(open(argv[1]))
+    rec = worker((job["name"], job["src"], job["seed"], job["opts"]), out_path=argv[2])
+    with open(argv[2], "w") as f:
+        json.dump(rec, f, default=str)
+    return 0
+
+
+if __name__ == "__main__":
+    sys.path.insert(0, os.path.dirname(os.path.dirname(os.path.abspath(__file__))))
+    sys.exit(main(sys.argv))
